@@ -90,6 +90,7 @@ PROPS = {
         "level": "proof",
         "race": True,
         "extract": ["Session", "Queues"],
+        "extra_modules": ["QiVerif.Props.C19Refresh"],
         "model_ops": c19_model_ops,
         "rule": "stress: N in {2,8,32} (thorough: up to 64) goroutines request proxies for 5 services behind 3 endpoints "
                 "(accept delayed 1-4 ms so that dial windows overlap) from one fresh session per round, call through each "
@@ -362,6 +363,7 @@ PROPS = {
         "level": "proof",
         "race": True,
         "extract": ["Property"],
+        "extra_modules": ["QiVerif.Props.C14Events"],
         "rule": "two real objects on a real server — the generated Bomb stub (delay: int32, validator) and a hand-written "
                 "object behind the generic object dispatcher with an int32, a string and a float property and its own "
                 "change callback — driven through a session: setProperty by name / by id / with a boolean as name / unknown "
@@ -421,7 +423,7 @@ PROPS = {
         "level": "proof",
         "extract": ["IdlGrammar", "SigGrammar", "IdlPackage"],
         "extra_modules": ["QiVerif.Lemmas.Idl", "QiVerif.Lemmas.IdlLines", "QiVerif.Props.C18Lines", "QiVerif.Props.C18Scope",
-                          "QiVerif.Props.C18Package", "QiVerif.Tie.C18Package", "QiVerif.Props.C18TypeSet", "QiVerif.Tie.C18TypeSet"],
+                          "QiVerif.Props.C18Package", "QiVerif.Tie.C18Package", "QiVerif.Props.C18TypeSet", "QiVerif.Tie.C18TypeSet", "QiVerif.Props.C18EndToEnd"],
         "rule": "type texts (600, thorough 6000: nested Vec / Map / Tuple over the 15 basic keywords, declared, undeclared and "
                 "template-named references, near-keywords such as strx / int7 / anything, empty and broken texts, white "
                 "space inside) wrapped into a package with three struct declarations and parsed by idl.ParseIDL: the "
